@@ -94,6 +94,7 @@ class Roles:
         # constraint attribute: self.<a> = <3rd-party constraint param>
         self.cons_param = "non_box_cons" if "non_box_cons" in self.bads_init.params else None
         self.cons_attr = None
+        self.cons_stores = []  # (stmt, value) of every store to the attribute in __init__
         if self.cons_param:
             for node in ast.walk(self.bads_init.node):
                 if isinstance(node, ast.Assign) and isinstance(node.value, ast.Name) and node.value.id == self.cons_param:
@@ -101,6 +102,18 @@ class Roles:
                         a = prog._self_attr(t)
                         if a:
                             self.cons_attr = a
+            if self.cons_attr is None:
+                # stored through a wrapper / conditional expression that mentions the parameter
+                for node in ast.walk(self.bads_init.node):
+                    if isinstance(node, ast.Assign) and any(isinstance(x, ast.Name) and x.id == self.cons_param for x in ast.walk(node.value)):
+                        for t in node.targets:
+                            a = prog._self_attr(t)
+                            if a:
+                                self.cons_attr = a
+            if self.cons_attr:
+                for node in ast.walk(self.bads_init.node):
+                    if isinstance(node, ast.Assign) and any(prog._self_attr(t) == self.cons_attr for t in node.targets):
+                        self.cons_stores.append((node, node.value))
         if self.cons_attr is None:
             raise AnalysisError("BADS no longer stores the non_box_cons parameter")
 
